@@ -853,7 +853,7 @@ pub fn run(run: &Run) {
     run.section_exhaustive("verifier-encoding", true, "pinned P-256 certificate whose pre-2050 not_before is encoded as GeneralizedTime (3 instants) x validity {1 s, 7 d, 14 d} x now in {nb-1, nb, nb+1, mid, na}");
 
     // 2. random cases
-    prop_search(run, Search { check: "verifier-random", cases: run.tier.pick(60_000, 600_000), workers, max_shrink_iters: 400 }, case_strategy, exec_verifier, |c| serde_json::to_value(c).unwrap());
+    prop_search(run, Search { check: "verifier-random", cases: run.tier.pick(60_000, 3_000_000), workers, max_shrink_iters: 400 }, case_strategy, exec_verifier, |c| serde_json::to_value(c).unwrap());
 
     // 3. end-to-end matrix (sequential: the native-roots policy touches process environment variables)
     let flavors: &[u8] = run.tier.pick(&[0, 1], &[0, 1, 2]);
